@@ -244,9 +244,31 @@ pub fn c10_case(rng: &mut Rng, st: &mut Stats) -> CaseOutcome {
                     }
                     last_peek = None;
                 }
-                Op::PeekN(_) => {
+                Op::PeekN(n) => {
                     executed.push(op.clone());
                     exec_op(&mut it, op, &mut last_peek);
+                    // the preview after a resume must be the beginning of the suffix scan, too
+                    let mut exp: Vec<Tok> = Vec::new();
+                    let (mut p2, m2) = (pos, mode);
+                    while exp.len() < *n {
+                        let (t, _) = first_token_from(&reference, &input, p2, m2);
+                        let Some(t) = t else { break };
+                        exp.push(t);
+                        if transition_of(&cfg.modes[m2], t.tt).is_some() {
+                            break;
+                        }
+                        p2 = t.end;
+                    }
+                    let got: Vec<Tok> = last_peek.as_ref().map(|p| p.toks().to_vec()).unwrap_or_default();
+                    if got != exp {
+                        return Err(format!(
+                            "peek_n({}) at offset {} in mode {} ({}) previews {:?}, a scan of the input from that offset yields {:?}",
+                            n, pos, mode, if since_reset { "after a reset" } else { "no reset so far" }, got, exp
+                        ));
+                    }
+                    if since_reset {
+                        st.count("peek_after_reset_checked");
+                    }
                 }
                 Op::AdvanceToPeeked(k) => {
                     let Some(pk) = last_peek.clone() else { continue };
@@ -340,6 +362,7 @@ pub fn c10(tier: Tier) -> i32 {
     .floor("reset_in_lookahead_config", 2000)
     .floor("next_after_reset_checked", 20_000)
     .floor("reset_through_with_offset_mid_history", 2_000)
+    .floor("peek_after_reset_checked", 10_000)
     .assume("the baseline path (fresh scanner, fresh iterator, offset 0) is the reference; its own tokenization is judged by C01/C04/C05")
     .assume("offsets are on character boundaries or beyond the input length");
     finish(&ctx, res, report)
@@ -1077,9 +1100,18 @@ pub fn c09_case(rng: &mut Rng, st: &mut Stats) -> CaseOutcome {
         let mut hw = 0usize;
         let mut prev_consumed_newline = false;
         macro_rules! drive {
-            ($it:ident, $next:expr) => {{
+            ($it:ident, $next:expr, $peek:expr) => {{
                 for _ in 0..nops {
                     let r = rng.below(100);
+                    if r >= 92 {
+                        // a peek must leave no trace in the positions (where the iterator offers it)
+                        let n = rng.range(1, 4);
+                        if $peek(&mut $it, n) {
+                            st.count("peeks_between_position_checks");
+                            log.push(format!("peek_n({})", n));
+                        }
+                        continue;
+                    }
                     if r < 55 {
                         let got: Option<(Tok, (usize, usize), (usize, usize))> = $next(&mut $it);
                         log.push(format!("next -> {:?}", got));
@@ -1142,14 +1174,17 @@ pub fn c09_case(rng: &mut Rng, st: &mut Stats) -> CaseOutcome {
                 Tok { tt: m.token_type(), start: m.start(), end: m.end() },
                 (m.start_position().line, m.start_position().column),
                 (m.end_position().line, m.end_position().column)
-            )));
+            )), |_it: &mut scnr::WithPositions<scnr::FindMatches>, _n: usize| false);
         } else {
             let mut it = scanner.find_iter(&input);
             drive!(it, |it: &mut scnr::FindMatches| it.next().map(|m| {
                 let sp = PositionProvider::position(&*it, m.start());
                 let ep = PositionProvider::position(&*it, m.end());
                 (Tok::from(m), (sp.line, sp.column), (ep.line, ep.column))
-            }));
+            }), |it: &mut scnr::FindMatches, n: usize| {
+                let _ = it.peek_n(n);
+                true
+            });
         }
         Ok(())
     });
@@ -1171,7 +1206,7 @@ pub fn c09(tier: Tier) -> i32 {
     let n = ctx.scale(30_000, 2_000_000);
     let res = run_cases(&ctx, 1, n, |rng, _i, st| c09_case(rng, st));
     let report = Report::new(
-        "configurations drawn from a pool of line-oriented patterns (newline tokens, tokens spanning several lines, tokens ending in a newline, comments, strings, multi-byte letters, with and without a pattern for \\n so that newlines are also skipped as unmatched), inputs rich in line structure (empty lines, \\r\\n, trailing newline, multi-byte characters, unmatched characters), histories of 5-60 operations: next (through WithPositions and through FindMatches + position), position(o) for already scanned character offsets o, set_offset to already scanned offsets (incl. directly after a consumed newline), exhaustion followed by more queries and resets. Oracle: true positions computed from the input (line = 1 + number of \\n before the offset, column = byte distance to the line start + 1); start positions must be exact, for an offset directly following a \\n both conventions are accepted for end positions and position(). Distinct by hash of (configuration, input, call log).",
+        "configurations drawn from a pool of line-oriented patterns (newline tokens, tokens spanning several lines, tokens ending in a newline, comments, strings, multi-byte letters, with and without a pattern for \\n so that newlines are also skipped as unmatched), inputs rich in line structure (empty lines, \\r\\n, trailing newline, multi-byte characters, unmatched characters), histories of 5-60 operations: next (through WithPositions and through FindMatches + position), position(o) for already scanned character offsets o, set_offset to already scanned offsets (incl. directly after a consumed newline), exhaustion followed by more queries and resets, and peek_n calls in between (on the FindMatches path). Oracle: true positions computed from the input (line = 1 + number of \\n before the offset, column = byte distance to the line start + 1); start positions must be exact, for an offset directly following a \\n both conventions are accepted for end positions and position(). Distinct by hash of (configuration, input, call log).",
     )
     .floor("reset", 5000)
     .floor("reset_right_after_newline", 1000)
@@ -1179,6 +1214,7 @@ pub fn c09(tier: Tier) -> i32 {
     .floor("position_queries", 50_000)
     .floor("multi_line_token", 1000)
     .floor("token_positions_checked", 50_000)
+    .floor("peeks_between_position_checks", 5_000)
     .assume("columns are byte columns (documented by the crate); offsets are character boundaries not beyond what the iterator has scanned");
     finish(&ctx, res, report)
 }
